@@ -78,7 +78,7 @@ def run(ctx):
     for name in ("HDDDM", "CDBD", "KdqTreeBatch", "NNDVI"):
         fam = zoo.BY_NAME[name]
         for k in range(per):
-            crng = np.random.default_rng([ctx.seed, 18, hash(name) % 2**31, k])
+            crng = np.random.default_rng([ctx.seed, 18, core.shash(name), k])
             cfg = fam.config(crng)
             if name in ("HDDDM", "CDBD"):
                 cfg["detect_batch"] = int(crng.choice([2, 3]))
@@ -98,7 +98,7 @@ def run(ctx):
                 ctx.count(f"{name}:original-run-raised"); continue
             ctx.traces += 1
             for pname, _ in perms(crng, 3):
-                prng = np.random.default_rng([ctx.seed, 18, k, hash(pname) % 2**31])
+                prng = np.random.default_rng([ctx.seed, 18, k, core.shash(pname)])
                 pb = []
                 for b in batches:
                     m = len(b)
